@@ -394,6 +394,7 @@ static void ProcessFile(char const* FileName, LongWord Offset) {
                     HSeg   = IntOffset >> 4;
                     ChkSum = 4 + Lo(HSeg) + Hi(HSeg);
                     IntOffset /= Gran;
+                    FirstBank = False;
                     errno = 0;
                     fprintf(TargFile, ":02000002%04X%02X\n", LoWord(HSeg),
                             Lo(0x100 - ChkSum));
@@ -466,6 +467,19 @@ static void ProcessFile(char const* FileName, LongWord Offset) {
                         FirstBank = False;
                     }
 
+                    /* likewise the next 64K segment for Intel16 */
+
+                    if ((ActFormat == eHexFormatIntel16) && (FirstBank)) {
+                        IntOffset += (0x10000 / Gran);
+                        HSeg   = (IntOffset * Gran) >> 4;
+                        ChkSum = 4 + Lo(HSeg) + Hi(HSeg);
+                        errno  = 0;
+                        fprintf(TargFile, ":02000002%04X%02X\n", LoWord(HSeg),
+                                Lo(0x100 - ChkSum));
+                        ChkIO(TargName);
+                        FirstBank = False;
+                    }
+
                     /* Recordlaenge ausrechnen, fuer Intel32 auf 64K-Grenze begrenzen
                        Bei Atmel nur 2 Byte pro Zeile!
                        Bei Mico8 nur 4 Byte (davon ein Wort=18 Bit) pro Zeile! */
@@ -474,6 +488,10 @@ static void ProcessFile(char const* FileName, LongWord Offset) {
                     if ((ActFormat == eHexFormatIntel32)
                         && (((ErgStart * Gran) & 0xffff) + TransLen >= 0x10000)) {
                         TransLen  = 0x10000 - ((ErgStart * Gran) & 0xffff);
+                        FirstBank = True;
+                    } else if ((ActFormat == eHexFormatIntel16)
+                               && ((ErgStart - IntOffset) * Gran + TransLen >= 0x10000)) {
+                        TransLen  = 0x10000 - ((ErgStart - IntOffset) * Gran);
                         FirstBank = True;
                     } else if (ActFormat == eHexFormatAtmel) {
                         TransLen = min(2, TransLen);
